@@ -49,6 +49,11 @@ def gen_case(rng, tier):
             else:
                 for m in rng.sample(MODES, rng.randint(1, 2)):
                     pins.append([b, m])
+        empty_mode = rng.random() < 0.1
+        if empty_mode:
+            # an un-moded port next to a port of the same base name whose mode name is the (legal) empty string: "a" and "a_"
+            b = rng.choice(bases)
+            pins = [p for p in pins if p[0] != b] + [[b, None], [b, ""]]
         names = [b if m is None else f"{b}_{m}" for b, m in pins]
         if len(set(names)) != len(names) or len(pins) > 5:
             continue
@@ -97,7 +102,7 @@ def gen_case(rng, tier):
         emap = {pnames[0]: pnames[1], pnames[1]: pnames[0]}       # swapped names in the file
     mm = None
     file_modes = sorted({"" if m is None else m for _, m in pins})
-    if rng.random() < 0.35:
+    if rng.random() < 0.35 and not empty_mode:
         sel = rng.sample(file_modes, rng.randint(1, len(file_modes)))
         targets = rng.sample(["TE", "TM", "te", "q", "m1"], len(sel))
         mm = {s: t for s, t in zip(sel, targets)}
